@@ -78,6 +78,9 @@ func (q *Query) BuildSMT(fuel int, extra []*Term, globalFacts []*Term) (string, 
 	asserts = append(asserts, extra...)
 	neg := Not(q.Goal)
 	all := append(append([]*Term(nil), asserts...), neg)
+	if cx.fuel > 0 {
+		fuel = cx.fuel
+	}
 	eqs, err := cx.unfoldRecDefs(all, fuel)
 	if err != nil {
 		return "", err
